@@ -166,4 +166,48 @@ def gradient (jvp : Tangent → Rat) (g n : Nat) : Vec :=
 def SupportedOn (g : Nat) (w : Tangent) : Prop :=
   ∀ i, i ≠ g → ∀ x ∈ w.getD i [], x = 0
 
+/-! ### the whole observable behaviour for one problem and one specification
+
+What the harness measures on the implementation under the all-true specification (values and
+differential tables of the terms) together with the layout of the problem is a `Layout`; `predict`
+is what the code returns for a specification: rejection, or the booleans of the constructed object
+and the values / gradients of every returned term and of the total. -/
+/-- what the harness describes of a problem: the layout and the all-true measurements -/
+structure Layout where
+  gmaps     : List (List (Option Nat))
+  nView     : List Nat
+  dims      : List Nat
+  baseVals  : List Rat
+  baseGrads : List (List Vec)
+  returned  : List (List Nat)
+
+def Layout.nTerms (L : Layout) : Nat := L.baseVals.length
+def termAt (L : Layout) (k : Nat) : LossTerm := { val := L.baseVals.getD k 0, diff := L.baseGrads.getD k [] }
+def maskAt (L : Layout) (specs : List Spec) (k : Nat) : Option Mask :=
+  resolve (L.nView.getD k 0 - 1) (specs.getD k .dflt)
+def masksOf (L : Layout) (specs : List Spec) : Option (List Mask) :=
+  allSome ((List.range L.nTerms).map (maskAt L specs))
+def famOf (L : Layout) (masks : List Mask) (members : List Nat) : Family :=
+  members.map (fun k => (liftMask (L.gmaps.getD k []) (masks.getD k []), termAt L k))
+def gradsOf (L : Layout) (ts : List LossTerm) : List Vec :=
+  (List.range L.dims.length).map (fun g => gradient (totalJvp ts) g (L.dims.getD g 0))
+
+structure Prediction where
+  masks     : List Mask
+  termVals  : List Rat
+  totalVal  : Rat
+  termGrads : List (List Vec)
+  totalGrad : List Vec
+
+def predict (L : Layout) (specs : List Spec) : Option Prediction :=
+  match masksOf L specs with
+  | none => none
+  | some masks =>
+    let ev := fun members => evalTerms (famOf L masks members)
+    some { masks := masks,
+           termVals := L.returned.map (fun ms => totalVal (ev ms)),
+           totalVal := totalVal (ev (List.range L.nTerms)),
+           termGrads := L.returned.map (fun ms => gradsOf L (ev ms)),
+           totalGrad := gradsOf L (ev (List.range L.nTerms)) }
+
 end Jinns.DerivKeys
